@@ -111,3 +111,43 @@ func TestC20NegativeChunkSizeIsRefused(t *testing.T) {
 		return err
 	})
 }
+
+// C20: the announced size of a chunk of an unsigned aws-chunked stream must not size an allocation. The reader made a
+// slice of the announced size before a single payload byte had arrived: 7fffffffffffffff ends the process with
+// "makeslice: len out of range", a few terabytes with a fatal out-of-memory error. The request only needs an
+// Authorization header that names an existing access key (the signature is checked after the body).
+func TestC20AnnouncedChunkSizeDoesNotSizeAnAllocation(t *testing.T) {
+	for _, size := range []string{"7fffffffffffffff", "1000000000000000"} {
+		func() {
+			defer func() {
+				if r := recover(); r != nil {
+					t.Errorf("chunk size %s: panic (the gateway process would have died): %v", size, r)
+				}
+			}()
+			r, err := NewUnsignedChunkReader(bytes.NewReader([]byte(size+"\r\nabc")), checksumTypeCrc32, false)
+			if err != nil {
+				t.Fatal(err)
+			}
+			if _, err = io.ReadAll(r); err == nil {
+				t.Errorf("chunk size %s with 3 bytes of data: accepted", size)
+			}
+		}()
+	}
+}
+
+// C06 / C12: a data chunk whose chunk-signature is empty was never verified (the pending signature doubles as the flag
+// "there is a signature to check"), so its bytes were accepted unsigned as long as the terminating chunk chained from the
+// last signature that was checked.
+func TestC12ChunkWithEmptySignatureIsRefused(t *testing.T) {
+	key := getSigningKey(c12Secret, c12Region, c12Date)
+	scope := fmt.Sprintf("%s/%s/s3/aws4_request", c12Date.Format("20060102"), c12Region)
+	h := sha256.Sum256(nil)
+	sts := fmt.Sprintf("AWS4-HMAC-SHA256-PAYLOAD\n%s\n%s\n%s\n%s\n%s", c12Date.Format("20060102T150405Z"), scope, c12Seed, zeroLenSig, hex.EncodeToString(h[:]))
+	final := hex.EncodeToString(hmac256(key, []byte(sts)))
+	stream := []byte("a;chunk-signature=\r\nunsigned!!!\r\n0;chunk-signature=" + final + "\r\n\r\n")
+	stream = bytes.Replace(stream, []byte("unsigned!!!"), []byte("unsigned!!"), 1)
+	got, err := c12ReadSigned(t, stream)
+	if err == nil {
+		t.Fatalf("a data chunk with an empty chunk-signature was accepted: decoded %q", got)
+	}
+}
